@@ -103,6 +103,14 @@ func sortOf(t types.Type) *Sort {
 		}
 		es := SortOf(u.Elem())
 		if es == nil {
+			// a list of pointers to message-like structs ([]*Log): each element is an optional value (A-PTRFIELD)
+			if pt, ok := u.Elem().Underlying().(*types.Pointer); ok {
+				if _, isStruct := pt.Elem().Underlying().(*types.Struct); isStruct && namedPath(pt.Elem()) != "" {
+					if ps := SortOf(pt.Elem()); ps != nil && ps.Kind == KData {
+						return SliceSort(PtrSort(ps))
+					}
+				}
+			}
 			return nil
 		}
 		return SliceSort(es)
